@@ -80,8 +80,8 @@ func (*c10) Prepare(string) {
 	}
 }
 
-var pointKinds = []string{"x=0", "x=1", "x=p-1", "x=p", "x+p", "x=2^256-1", "non-subgroup", "off-curve", "negated", "random", "other-honest"}
-var scalarKinds = []string{"r-1", "r", "r+1", "2^256-1", "0", "random<r", "random>=r", "x+r"}
+var pointKinds = []string{"x=0", "x=1", "x=p-1", "x=p", "x+p", "x=2^256-1", "non-subgroup", "off-curve", "negated", "random", "other-honest", "p-limbs"}
+var scalarKinds = []string{"r-1", "r", "r+1", "2^256-1", "0", "random<r", "random>=r", "x+r", "r-limbs", "r-limbs", "r-limbs"}
 
 func genReader(r *Rng) ReaderSpec {
 	return ReaderSpec{Chunk: []string{"1", "all", "random"}[r.Intn(3)], ChunkSeed: r.U64(), EOFWithData: r.Bool()}
@@ -287,6 +287,10 @@ func (m C10Mut) apply(data []byte, isScalar bool, honest [][]byte) string {
 			out = le32(new(big.Int))
 		case "random<r":
 			out = le32(r.Scalar())
+		case "r-limbs":
+			// the modulus with single limbs raised/lowered: a limb-wise comparison that gets one
+			// (in)equality wrong accepts or rejects exactly these
+			out = le32(limbNeighbour(R, r))
 		case "x+r":
 			y := new(big.Int).Add(v, R)
 			if y.Cmp(two256) >= 0 {
@@ -321,6 +325,8 @@ func (m C10Mut) apply(data []byte, isScalar bool, honest [][]byte) string {
 			out = be32(y)
 		case "x=2^256-1":
 			out = be32(new(big.Int).Sub(two256, bigOne))
+		case "p-limbs":
+			out = be32(limbNeighbour(P, r))
 		case "non-subgroup", "off-curve":
 			out = be32(findX(r, kind))
 		case "negated":
@@ -338,6 +344,44 @@ func (m C10Mut) apply(data []byte, isScalar bool, honest [][]byte) string {
 	}
 	copy(cur, out)
 	return kind
+}
+
+// limbNeighbour returns m with one 64-bit limb raised and/or another lowered by a small or
+// large amount (always in [0, 2^256)).
+func limbNeighbour(m *big.Int, r *Rng) *big.Int {
+	v := new(big.Int).Set(m)
+	amt := func() *big.Int {
+		switch r.Intn(3) {
+		case 0:
+			return big.NewInt(1)
+		case 1:
+			return new(big.Int).Sub(new(big.Int).Lsh(bigOne, 64), bigOne)
+		}
+		return new(big.Int).SetUint64(r.U64() | 1)
+	}
+	i, j := uint(r.Intn(4)), uint(r.Intn(4))
+	switch r.Intn(4) {
+	case 0:
+		v.Add(v, new(big.Int).Lsh(amt(), 64*i))
+	case 1:
+		v.Sub(v, new(big.Int).Lsh(amt(), 64*i))
+	case 2:
+		v.Add(v, new(big.Int).Lsh(amt(), 64*i))
+		v.Sub(v, new(big.Int).Lsh(amt(), 64*j))
+	default:
+		// same upper limbs as m, larger limb i, smaller limb j < i
+		v.Add(v, new(big.Int).Lsh(bigOne, 64*i))
+		if j < i {
+			v.Sub(v, new(big.Int).Lsh(amt(), 64*j))
+		}
+	}
+	if v.Sign() < 0 {
+		v.Neg(v)
+	}
+	if v.Cmp(two256) >= 0 {
+		v.Mod(v, two256)
+	}
+	return v
 }
 
 // input builds the byte string handed to the reader and a label of its class.
